@@ -1,15 +1,18 @@
 #!/bin/bash
-# tools/mutest.sh <patch.diff> <ID> [tier]  — apply a seeded change to /repo, run the check, undo it.
+# tools/mutest.sh <patch.diff> <ID> [tier]  - apply a seeded change to a scratch copy of /repo (HEAD), run the
+# check against that copy (VERIF_REPO), remove the copy. Neither /repo nor the committed evidence is touched.
 p="$1"; id="$2"; tier="${3:-quick}"
-cd /repo || exit 2
-if ! git apply --check "$p" 2>/dev/null; then echo "PATCH-DOES-NOT-APPLY $p"; exit 3; fi
-git apply "$p"
+S=$(mktemp -d /var/tmp/mutest-XXXXXX)
+trap 'rm -rf "$S"' EXIT
+git -C /repo archive HEAD | tar -x -C "$S" || exit 2
+if ! git -C "$S" init -q 2>/dev/null; then :; fi
+if ! (cd "$S" && git apply --check "$p" 2>/dev/null); then echo "PATCH-DOES-NOT-APPLY $p"; exit 3; fi
+(cd "$S" && git apply "$p")
+E=$(mktemp -d /var/tmp/mutest-ev-XXXXXX)
+mkdir -p "$E/evidence"; cp /verif/known_findings.json "$E/" 2>/dev/null
 cd /verif
-./check "$id" "$tier" > /tmp/mutest.$$.log 2>&1; rc=$?
-git -C /repo checkout -- . 
-grep -E "VIOLATION|KNOWN-FINDING|clause=|INFRA|BUILD-FAILED|seed=" /tmp/mutest.$$.log | head -8
-rm -f /tmp/mutest.$$.log
+VERIF_REPO="$S" VERIF_OUT="$E" ./check "$id" "$tier" > "$E/log" 2>&1; rc=$?
+grep -E "VIOLATION|clause=|INFRA|BUILD-FAILED|seed=" "$E/log" | head -8
 echo "exit=$rc"
-# restore evidence written during the mutant run
-git -C /verif checkout -- evidence 2>/dev/null
+rm -rf "$E"
 exit $rc
